@@ -230,6 +230,22 @@ def run_word(part, unit):
                 part.count('skipped-afocal')
                 continue
             check_launch(part, o, rows, obj, ap, ft, tele, mf, det)
+    # ---- history: the same lens built on an Optic that held ANOTHER lens (different pupils, other conjugates) before reset()
+    if len(unit['word']) <= 2 and not unit.get('gap_factor'):
+        prior = LZ.spec(LZ.with_stop(LZ.fix_thickness_signs([A[0], dict(A[1], t=3.0 * p['R']), A[5]]), 2), obj=p['od'][0], ap=('objectNA', p['na']),
+                        ftype='object_height', fields=(0.0, p['h']), waves=((0.5876, True),))
+        for (obj, ap, ft, tele) in [c for c in all_configs(p) if not expected_invalid(*c)][:4]:
+            mf = p['ang'] if ft == 'angle' else p['h']
+            sp = LZ.spec(surfs, obj=obj, ap=ap, ftype=ft, fields=(0.0, 0.6 * mf, mf), waves=((0.5876, True),), tele=tele)
+            rows = prescription.rows(sp, lambda m, prev: LZ.ref_index(m, 0.5876, prev))
+            if abs(abcd.cardinal(rows)['C']) < 1e-9 and ap[0] == 'imageFNO':
+                continue
+            o = LZ.build(dict(sp, reuse_after=prior))
+            part.states += 2
+            part.transitions += 1
+            part.count('reused-optic-configurations')
+            det = dict(det0, obj=obj, ap=list(ap), ftype=ft, tele=tele, fields=[0.0, 0.6 * mf, mf], history='lens-B, trace, reset, this lens')
+            check_launch(part, o, rows, obj, ap, ft, tele, mf, det, extra=',optic-reused-after-reset')
     # ---- finite object immersed in a medium (n0 != 1): the stated NA is n0 sin U, pupils are imaged from that medium
     if len(unit['word']) <= 2 and not unit.get('gap_factor'):
         for n0 in (1.33, 1.515):
